@@ -232,7 +232,7 @@ func (e *Env) heapSet(s *State, name, sort, term string) {
 	e.heapGet(s, name, sort) // make sure the initial constant exists (frames compare against it)
 	c := e.ctx.freshConst(name, sort)
 	s.assume(eq(c, term))
-	if strings.HasPrefix(name, "G!buf") || name == "G!fdata" || name == "G!fsize" || name == "G!fpos" {
+	if strings.HasPrefix(name, "G!buf") || name == "G!fdata" || name == "G!fsize" || name == "G!fpos" || name == "G!rdata" || name == "G!rpos" || name == "G!rend" || name == "E!uint8" {
 		if e.ctx.defs == nil {
 			e.ctx.defs = map[string]string{}
 		}
